@@ -416,6 +416,7 @@ class R:
         arms_before = len(arms)
         self.helper_arms(arm)
         self.reply_arms(arm)
+        self.mt_arms(arm)
         arms += self.extra_arms()
         lines = [
             "pub struct P;",
@@ -466,6 +467,58 @@ class R:
                 arm(f"builder:{n}:{recv}",
                     f"{decls} let recv: {ty} = svmon::serde_json::from_value(a[\"recv\"].clone()).expect(\"recv\"); "
                     f"let r = <{ty} as sv::SubMsgMethods<{M}>>::{n}(recv, {args}).map(|m| svmon::serde_json::to_value(&m).unwrap()).map_err(herr); finish_plain(r)")
+
+    def mt_arms(self, arm):
+        """Proxy side of the multitest equivalence monitor (C12)."""
+        p = self.p
+        sv = self.sv
+        M, Q = cm(p), cq(p)
+        pn = p["name"]
+        BA = f"{sv}::cw_multi_test::BasicApp<{M}, {Q}>"
+        CID = f"sv::mt::CodeId<'static, {self.cid}, {BA}>"
+        app = f"let app = st.app::<{M}, {Q}>(a);"
+        arm("mt:store", f"{app} let cid: {CID} = sv::mt::CodeId::store_code(app); let id = cid.code_id(); "
+            f"st.any.insert(format!(\"cid:{{}}:{pn}:{{}}\", a[\"world\"], id), Box::new(cid)); svmon::mt::ok(json!({{\"code_id\": id}}))")
+        arm("mt:store_raw", f"{app} let id = app.app_mut().store_code(Box::new({self.cid}::new())); svmon::mt::ok(json!({{\"code_id\": id}}))")
+        inst = [h for h in p["parts"][0]["handlers"] if h["kind"] == "instantiate"][0]
+        decls = " ".join(f"let a{i}: {self.ty(a['ti'])} = arg(a, {i});" for i, a in enumerate(inst["args"]))
+        call_args = ", ".join(f"a{i}" for i in range(len(inst["args"])))
+        arm("mtp:instantiate",
+            f"{decls} let key = format!(\"cid:{{}}:{pn}:{{}}\", a[\"world\"], a[\"code_id\"]); "
+            f"let cid = st.any.get(&key).expect(\"HARNESS: code id\").downcast_ref::<{CID}>().expect(\"HARNESS: cid type\"); "
+            "svmon::set_plan(svmon::plan_from_json(&a[\"plan\"])); "
+            "let funds = coins_of(&a[\"funds\"]); let salt = a[\"salt\"].as_str().map(|s| Binary::from_base64(s).unwrap().to_vec()); "
+            "let sender = Addr::unchecked(a[\"sender\"].as_str().unwrap()); "
+            f"let mut b = cid.instantiate({call_args}); "
+            "if let Some(l) = a[\"label\"].as_str() { b = b.with_label(l); } "
+            "if let Some(ad) = a[\"admin\"].as_str() { b = b.with_admin(ad); } "
+            "if !a[\"funds\"].is_null() { b = b.with_funds(&funds); } "
+            "if let Some(s) = salt.as_ref() { b = b.with_salt(s.as_slice()); } "
+            "match b.call(&sender) { Ok(px) => svmon::mt::ok(json!({\"addr\": px.contract_addr})), Err(e) => svmon::mt::err_described(e) }")
+        for part in p["parts"]:
+            if part["id"] == "c":
+                use = f"use sv::mt::{self.cid}Proxy as _;"
+            else:
+                use = f"use {part['module']}::sv::mt::{part['trait']}Proxy as _;"
+            for h in part["handlers"]:
+                if not h["safe"] or h["kind"] not in ("exec", "query", "sudo", "migrate"):
+                    continue
+                decls = " ".join(f"let a{i}: {self.ty(a['ti'])} = arg(a, {i});" for i, a in enumerate(h["args"]))
+                call_args = ", ".join(f"a{i}" for i in range(len(h["args"])))
+                pre = (f"{use} {app} {decls} svmon::set_plan(svmon::plan_from_json(&a[\"plan\"])); "
+                       f"let px = {sv}::multitest::Proxy::<{BA}, {self.cid}>::new(Addr::unchecked(a[\"addr\"].as_str().unwrap()), app); ")
+                if h["kind"] == "exec":
+                    body = ("let funds = coins_of(&a[\"funds\"]); let sender = Addr::unchecked(a[\"sender\"].as_str().unwrap()); "
+                            f"let b = px.{h['name']}({call_args}); let b = if a[\"funds\"].is_null() {{ b }} else {{ b.with_funds(&funds) }}; "
+                            "match b.call(&sender) { Ok(r) => svmon::mt::ok(svmon::mt::app_response_json(&r)), Err(e) => svmon::mt::err_described(e) }")
+                elif h["kind"] == "query":
+                    body = (f"match px.{h['name']}({call_args}) {{ Ok(v) => svmon::mt::ok(json!({{\"text\": j(&v)}})), Err(e) => svmon::mt::err_described(e) }}")
+                elif h["kind"] == "sudo":
+                    body = (f"match px.{h['name']}({call_args}) {{ Ok(r) => svmon::mt::ok(svmon::mt::app_response_json(&r)), Err(e) => svmon::mt::err_described(e) }}")
+                else:
+                    body = ("let sender = Addr::unchecked(a[\"sender\"].as_str().unwrap()); "
+                            f"match px.{h['name']}({call_args}).call(&sender, a[\"new_code_id\"].as_u64().unwrap()) {{ Ok(r) => svmon::mt::ok(svmon::mt::app_response_json(&r)), Err(e) => svmon::mt::err_described(e) }}")
+                arm(f"mtp:{h['hid']}", pre + body)
 
     def dyn_iface(self, part):
         """`dyn Trait<Error = .., assoc..>` naming the interface without a contract type."""
